@@ -408,6 +408,25 @@ class Inliner:
                 out.append(hz[1])
                 continue
             self.inline_exprs(s, cls, caller)
+            if isinstance(s, ast.If):
+                # `if self._helper(a):` with a helper that is not one expression: evaluate it into a temporary first (the test is the
+                # first thing the statement evaluates), where the statement-level inliner can expand it
+                t = s.test
+                neg = isinstance(t, ast.UnaryOp) and isinstance(t.op, ast.Not)
+                c = t.operand if neg else t
+                if isinstance(c, ast.Call) and self.resolve(c, cls) is not None:
+                    fn_, is_m, self_e = self.resolve(c, cls)
+                    simple = lambda a: isinstance(a, (ast.Name, ast.Constant)) or (isinstance(a, ast.Attribute) and simple(a.value))
+                    if self.eligible(fn_, caller) and all(simple(a) for a in list(c.args) + [k.value for k in c.keywords]):
+                        tmp = "hoisted__%s%d" % (fn_.name.strip("_"), next(_counter))
+                        pre = ast.copy_location(ast.Assign(targets=[ast.Name(id=tmp, ctx=ast.Store())], value=c), s)
+                        ast.fix_missing_locations(pre)
+                        rep = self.try_inline(pre, cls, caller)
+                        if rep is not None:
+                            nm = ast.copy_location(ast.Name(id=tmp, ctx=ast.Load()), c)
+                            s.test = ast.copy_location(ast.UnaryOp(op=ast.Not(), operand=nm), t) if neg else nm
+                            self.changed += 1
+                            out.extend(rep)
             for fld in ("body", "orelse", "finalbody"):
                 if hasattr(s, fld) and isinstance(getattr(s, fld), list) and not isinstance(s, (ast.FunctionDef, ast.ClassDef)):
                     setattr(s, fld, self.rewrite_block(getattr(s, fld), cls, caller))
@@ -707,6 +726,10 @@ def _propagate_copies(fn):
             elif isinstance(v, ast.Tuple) and all(_copyable(x, stable | set(env), stored_attrs) for x in v.elts):
                 env[n] = v
                 changed = True
+            elif isinstance(v, ast.Call) and isinstance(v.func, ast.Name) and v.func.id == "range" and not v.keywords and v.args \
+                    and all(_copyable(x, stable | set(env), stored_attrs) for x in v.args):
+                env[n] = v          # an immutable, re-iterable range object
+                changed = True
             elif isinstance(v, ast.Dict) and v.keys and all(isinstance(k, ast.Constant) and isinstance(k.value, str) for k in v.keys) \
                     and all(_copyable(x, stable | set(env), stored_attrs) for x in v.values) and uses.get(n, (0, 0))[1] == 1:
                 dict_env[n] = v
@@ -789,6 +812,25 @@ def _inline_adjacent_single_use(stmts, uses):
                             return copy.deepcopy(s.value)
                         return n
                 stmts[i + 1] = R().visit(nxt)
+                changed += 1
+                i += 1
+                continue
+        if (isinstance(s, ast.Assign) and len(s.targets) == 1 and isinstance(s.targets[0], ast.Name) and isinstance(nxt, ast.If)
+                and uses.get(s.targets[0].id) == (1, 1)):
+            # `t = <expr>; if <test reading t once>:`  -- the test is the next thing evaluated
+            name = s.targets[0].id
+            loads = [n for n in ast.walk(nxt.test) if isinstance(n, ast.Name) and n.id == name and isinstance(n.ctx, ast.Load)]
+            elsewhere = [n for b in nxt.body + nxt.orelse for n in ast.walk(b) if isinstance(n, ast.Name) and n.id == name]
+            first = next((n for n in ast.walk(nxt.test) if isinstance(n, (ast.Name, ast.Call, ast.Attribute, ast.Subscript))), None)
+            simple_test = isinstance(nxt.test, ast.Name) or (isinstance(nxt.test, ast.UnaryOp) and isinstance(nxt.test.operand, ast.Name)) \
+                or (isinstance(nxt.test, ast.Compare) and isinstance(nxt.test.left, ast.Name) and nxt.test.left.id == name)
+            if len(loads) == 1 and not elsewhere and simple_test and not any(isinstance(n, (ast.Lambda, ast.ListComp, ast.GeneratorExp)) for n in ast.walk(nxt.test)):
+                class R2(ast.NodeTransformer):
+                    def visit_Name(self, n):
+                        if n is loads[0]:
+                            return copy.deepcopy(s.value)
+                        return n
+                nxt.test = R2().visit(nxt.test)
                 changed += 1
                 i += 1
                 continue
@@ -1083,6 +1125,146 @@ def _expand_module_constants(tree):
     return count[0]
 
 
+def _scalar_only_kernels(tree):
+    """Names of module-level njit functions whose explicit signature has scalar parameters only (no arrays, no bytes): pure functions
+    of their arguments."""
+    out = set()
+    for fn in tree.body:
+        if not (isinstance(fn, ast.FunctionDef) and _is_njit(fn)):
+            continue
+        sig = None
+        for d in fn.decorator_list:
+            if isinstance(d, ast.Call) and d.args:
+                sig = d.args[0]
+        if not (isinstance(sig, ast.Call) and len(sig.args) == len(fn.args.args)):
+            continue
+        if all(isinstance(a, (ast.Name, ast.Attribute)) for a in sig.args) and isinstance(sig.func, (ast.Name, ast.Attribute)):
+            # and the body neither writes a global nor calls anything but package kernels / casts: checked loosely by having no subscript store
+            if not any(isinstance(n, ast.Subscript) and isinstance(n.ctx, ast.Store) for n in ast.walk(fn)):
+                out.add(fn.name)
+    return out
+
+
+def _hoist_scalar_helper_calls(tree):
+    """Inside kernels, a call to a scalar-only helper kernel nested in an expression (`range(_n_windows(a, b))`, `x = y + _h(z)`) is
+    evaluated into a fresh temporary just before the statement, where the walker walks the helper inline.  Such a helper is a pure
+    function of scalars, so evaluating it first changes nothing; calls inside short-circuit operands, conditional expressions and
+    `while` tests are left alone."""
+    pure = _scalar_only_kernels(tree)
+    if not pure:
+        return 0
+    n_h = 0
+
+    def find(expr, top):
+        """first hoistable call in evaluation order, not `top` itself"""
+        stack = [expr]
+        while stack:
+            n = stack.pop(0)
+            if isinstance(n, (ast.BoolOp, ast.IfExp, ast.Lambda, ast.ListComp, ast.SetComp, ast.DictComp, ast.GeneratorExp)):
+                continue
+            if isinstance(n, ast.Call) and isinstance(n.func, ast.Name) and n.func.id in pure and n is not top \
+                    and not any(isinstance(a, ast.Starred) for a in n.args) and not n.keywords:
+                inner = [find(a, None) for a in n.args]
+                if not any(inner):
+                    return n
+            stack.extend(ast.iter_child_nodes(n))
+        return None
+
+    def block(stmts):
+        nonlocal n_h
+        out = []
+        for st in stmts:
+            for fld in ("body", "orelse", "finalbody"):
+                if hasattr(st, fld) and isinstance(getattr(st, fld), list) and not isinstance(st, (ast.FunctionDef, ast.ClassDef)):
+                    setattr(st, fld, block(getattr(st, fld)))
+            for _ in range(8):
+                if isinstance(st, ast.For):
+                    host, top = st.iter, None
+                elif isinstance(st, ast.If):
+                    host, top = st.test, None
+                elif isinstance(st, (ast.Assign, ast.AugAssign, ast.Return, ast.Expr)) and getattr(st, "value", None) is not None:
+                    host, top = st.value, st.value
+                else:
+                    break
+                c = find(host, top)
+                if c is None:
+                    break
+                tmp = "hk__%s%d" % (c.func.id.strip("_"), next(_counter))
+                pre = ast.copy_location(ast.Assign(targets=[ast.Name(id=tmp, ctx=ast.Store())], value=c), st)
+
+                class R(ast.NodeTransformer):
+                    def visit_Call(self, x):
+                        if x is c:
+                            return ast.copy_location(ast.Name(id=tmp, ctx=ast.Load()), x)
+                        self.generic_visit(x)
+                        return x
+                if isinstance(st, ast.For):
+                    st.iter = R().visit(st.iter)
+                elif isinstance(st, ast.If):
+                    st.test = R().visit(st.test)
+                else:
+                    st.value = R().visit(st.value)
+                ast.fix_missing_locations(pre)
+                out.append(pre)
+                n_h += 1
+            out.append(st)
+        return out
+    for fn in tree.body:
+        if isinstance(fn, ast.FunctionDef) and _is_njit(fn):
+            fn.body = block(fn.body)
+    return n_h
+
+
+def _fuse_row_views(fn):
+    """`v = X[i]` (X a parameter or `self.<attr>`, i a name or constant) bound once, with every use of v being a further subscript
+    `v[j]`, `v[j, k]`, `v[j, :n]` (read or written): each use is rewritten to `X[i, j]`, `X[i, j, k]`, ... and the binding is
+    dropped.  For NumPy arrays -- which is what the kernels' array parameters and the sketch tables are -- basic indexing of a row
+    view is indexing of the array.  i must not be rebound between the binding and the uses (it is a loop variable or never stored)."""
+    params = {a.arg for a in fn.args.args + fn.args.kwonlyargs + fn.args.posonlyargs}
+    stores, loads, parent = {}, {}, {}
+    for n in ast.walk(fn):
+        for c in ast.iter_child_nodes(n):
+            parent[id(c)] = n
+        if isinstance(n, ast.Name):
+            (stores if isinstance(n.ctx, (ast.Store, ast.Del)) else loads).setdefault(n.id, []).append(n)
+    for_targets = {t.id for f in ast.walk(fn) if isinstance(f, ast.For) for t in ast.walk(f.target) if isinstance(t, ast.Name)}
+    changed = 0
+    for st in [x for x in ast.walk(fn) if isinstance(x, ast.Assign)]:
+        if not (len(st.targets) == 1 and isinstance(st.targets[0], ast.Name) and isinstance(st.value, ast.Subscript)):
+            continue
+        v, sub = st.targets[0].id, st.value
+        if len(stores.get(v, [])) != 1 or v in params:
+            continue
+        base = sub.value
+        ok_base = (isinstance(base, ast.Name) and base.id in params and not stores.get(base.id)) or \
+            (isinstance(base, ast.Attribute) and isinstance(base.value, ast.Name) and base.value.id == "self")
+        idx = sub.slice
+        ok_idx = isinstance(idx, ast.Constant) and isinstance(idx.value, int) or \
+            (isinstance(idx, ast.Name) and (len(stores.get(idx.id, [])) == 0 or (idx.id in for_targets and len(stores.get(idx.id, [])) == 1)))
+        if not (ok_base and ok_idx):
+            continue
+        if isinstance(base, ast.Attribute) and any(isinstance(a, ast.Attribute) and isinstance(a.ctx, ast.Store) and a.attr == base.attr for a in ast.walk(fn)):
+            continue
+        uses = loads.get(v, [])
+        if not uses or not all(isinstance(parent.get(id(u)), ast.Subscript) and parent[id(u)].value is u for u in uses):
+            continue
+        for u in uses:
+            p_ = parent[id(u)]
+            inner = list(p_.slice.elts) if isinstance(p_.slice, ast.Tuple) else [p_.slice]
+            p_.value = copy.deepcopy(base)
+            p_.slice = ast.Tuple(elts=[copy.deepcopy(idx)] + inner, ctx=ast.Load())
+        # drop the binding
+        holder = parent.get(id(st))
+        for fld in ("body", "orelse", "finalbody"):
+            blk = getattr(holder, fld, None)
+            if isinstance(blk, list) and st in blk:
+                blk[blk.index(st)] = ast.copy_location(ast.Pass(), st)
+        changed += 1
+    if changed:
+        ast.fix_missing_locations(fn)
+    return changed
+
+
 class _PruneConstantIfs(ast.NodeTransformer):
     """`if True:` / `if False:` / `if 0:` (a literal test): replaced by the arm that runs.  `while False:` is dropped."""
 
@@ -1104,11 +1286,14 @@ def normalize(tree):
     _expand_module_aliases(tree)
     _expand_module_constants(tree)
     _PruneConstantIfs().visit(tree)
+    _hoist_scalar_helper_calls(tree)
     inl = Inliner(tree)
     n = inl.run()
     tree._inlined_helpers = set(inl.inlined_names)
     consts = _module_const_tuples(tree)
     for node in ast.walk(tree):
+        if isinstance(node, ast.FunctionDef):
+            _fuse_row_views(node)
         if isinstance(node, ast.FunctionDef) and _is_njit(node):
             node.body = _split_simple_statements(node.body)       # statement forms only; kernels are otherwise read by the walker
         if isinstance(node, ast.FunctionDef) and not _is_njit(node):
